@@ -105,12 +105,78 @@ static bool gen_c08(uint64_t seed, const std::string &tier, uint64_t i, Plan &p)
   return true;
 }
 
+
+// ---------------------------------------------------------------------------------------------- C07 (QMTP and QMQP daemons)
+static std::string ns(const std::string &x) { return std::to_string(x.size()) + ":" + x + ","; }
+
+static bool gen_c07_nt(Rng &r, Plan &p, uint64_t i, bool qmtp) {
+  p.knobs.set("daemon", qmtp ? "qmtpd" : "qmqpd");
+  Json ctl = Json::obj(); Json env = Json::obj();
+  int64_t databytes = r.chance(0.6) ? (int64_t)r.pick(std::vector<int64_t>{1, 10, 50, 100, 1000}) : 0;
+  if (databytes) { if (r.chance(0.5)) ctl.set("databytes", (long long)databytes); else env.set("DATABYTES", std::to_string(databytes)); }
+  if (r.chance(0.6)) { Json rh = Json::arr(); rh.push("l.example"); rh.push(".sub.example"); ctl.set("rcpthosts", rh); }
+  p.knobs.set("control", ctl);
+  static const std::vector<std::string> hostile = {"client.example", "evil host", "a\"b", "x(y)", "semi;colon", "new\nline", "\x01\x7f\xff", "<script>", "ok-host.example", "a,b", "[1.2.3.4]", "per%cent+plus/slash=eq:colon"};
+  env.set("TCPREMOTEIP", r.chance(0.8) ? "192.0.2.9" : r.pick(hostile)).set("TCPREMOTEHOST", r.pick(hostile));
+  if (r.chance(0.7)) env.set("TCPLOCALHOST", r.chance(0.8) ? "sim.example" : r.pick(hostile)); else if (r.chance(0.5)) env.set("TCPLOCALIP", "192.0.2.1");
+  if (r.chance(0.4)) env.set("TCPREMOTEINFO", r.pick(hostile));
+  if (r.chance(0.15)) env.set("RELAYCLIENT", r.pick(std::vector<std::string>{"", "@relay.example"}));
+  p.knobs.set("env", env);
+  auto addr = [&](bool rcpt) -> std::string {
+    int kk = (int)r.below(12);
+    if (kk == 0) return std::string((size_t)r.pick(std::vector<int64_t>{985, 999, 1000, 1003}), 'a');
+    if (kk == 1) { std::string a = "nul"; a.push_back('\0'); return a + "x@l.example"; }
+    if (kk == 2 && rcpt) return "w@other.example";
+    if (kk == 3) return rcpt ? "v@deep.sub.example" : "";
+    if (kk == 4) return "postmaster";
+    if (kk == 5 && rcpt) return "U@L.Example";
+    return (rcpt ? "u" : "s") + std::to_string(r.below(9)) + (rcpt ? "@l.example" : "@x.example");
+  };
+  auto body_of = [&](bool dos, bool has_mode) -> std::string {
+    int bk = (int)r.below(6); std::string dec;
+    if (databytes && bk < 3) { int64_t n = databytes + (int64_t)r.range(-1, 1); if (n < 0) n = 0; while ((int64_t)dec.size() < n) dec += (dec.size() % 17 == 16) ? '\n' : 'b'; }
+    else if (bk == 3) { int n = (int)r.below(60); for (int q = 0; q < n; q++) dec += r.pick(std::vector<std::string>{"a", "\r", "\n", ".", "\r\n", "line\n"}); }
+    else if (bk == 4) dec = "";
+    else dec = "Subject: t\n\nhello\n.\n..dots\n";
+    std::string raw;
+    if (dos && bk != 3) { for (char c : dec) { if (c == '\n') raw += "\r\n"; else raw += c; } } else raw = dec;
+    if (!has_mode) return raw;
+    return std::string(1, dos ? '\r' : '\n') + raw;
+  };
+  std::string all; int npk = qmtp ? (int)r.range(1, 3) : 1;
+  for (int q = 0; q < npk; q++) {
+    std::string body = body_of(r.chance(0.5), qmtp);
+    if (qmtp && r.chance(0.03)) body = r.pick(std::vector<std::string>{"", "x body"});   // empty message / bad mode byte
+    std::string sender = addr(false); int nr = (int)r.below(4); std::string rl; for (int t = 0; t < nr; t++) rl += ns(addr(true));
+    if (qmtp) all += ns(body) + ns(sender) + ns(rl); else all += ns(ns(body) + ns(sender) + rl);
+  }
+  if (!qmtp && r.chance(0.2)) all += "trailing";
+  std::string lab = qmtp ? "QMTP " : "QMQP ";
+  if (r.chance(0.3)) {   // mutate the framing
+    std::vector<size_t> fr; for (size_t q = 0; q < all.size(); q++) if (isdigit((unsigned char)all[q]) || all[q] == ':' || all[q] == ',') fr.push_back(q);
+    size_t pos = (!fr.empty() && r.chance(0.8)) ? fr[r.below(fr.size())] : (size_t)r.below(all.size() + 1);
+    int op = (int)r.below(3); static const std::string repl = ":,0123456789x/ -";
+    if (op == 0 && pos < all.size()) all.erase(pos, 1); else if (op == 1 && pos < all.size()) all[pos] = r.chance(0.1) ? '\0' : repl[r.below(repl.size())]; else all.insert(pos > all.size() ? all.size() : pos, 1, repl[r.below(repl.size())]);
+    lab += "mutated at " + std::to_string(pos) + ", ";
+  }
+  int mode = (int)(i % 4);
+  if (mode == 0) { p.ops.push(send_op(all, (int)r.below(40))); p.label = lab + "complete"; }
+  else if (mode == 1) { size_t cut = (size_t)r.below(all.size() + 1); p.ops.push(send_op(all.substr(0, cut), (int)r.below(40))); p.ops.push(Json::obj().set("op", "close")); p.label = lab + "disconnect at byte " + std::to_string(cut) + " of " + std::to_string(all.size()); }
+  else if (mode == 2) { Json q = Json::obj(); int code = r.chance(0.3) ? 0 : (int)r.below(256); q.set("code", code).set("read_all", true);
+    if (code == 82 || r.chance(0.1)) q.set("text", r.pick(std::vector<std::string>{"Dcustom permanent", "Zcustom temporary", "D", "", "Zx"}));
+    p.knobs.set("qq", q); p.ops.push(send_op(all, (int)r.below(40))); p.label = lab + "queue program exits " + std::to_string(code); }
+  else { size_t cut = (size_t)r.below(all.size() + 1); int64_t st = r.chance(0.5) ? 3500 : 3700; p.ops.push(send_op(all.substr(0, cut))); p.ops.push(Json::obj().set("op", "sleep").set("s", (long long)st)); p.ops.push(send_op(all.substr(cut))); p.label = lab + "stall of " + std::to_string(st) + " s at byte " + std::to_string(cut); }
+  if (mode == 0 && r.chance(0.3)) { Fault f; f.actor = "qmail-queue"; f.call = r.pick(std::vector<CallId>{C_WRITE, C_FSYNC, C_LINK, C_OPEN, C_READ, C_MALLOC}); f.nth = (int)r.range(1, 6); f.kind = f.call == C_MALLOC ? "null" : "error"; f.err = r.pick(std::vector<int>{EIO, ENOSPC}); p.faults.push_back(f); p.knobs.set("real_qq_fault", true); p.label += " +queue fault"; }
+  return true;
+}
+
 // ---------------------------------------------------------------------------------------------- C07 (SMTP daemon)
 static bool gen_c07(uint64_t seed, const std::string &tier, uint64_t i, Plan &p) {
   (void)tier;
   p = Plan(); p.property = "C07"; p.world = "SI"; p.seed = mix64(mix64(seed, 0xC07), i);
   Rng r(p.seed); si_knobs(r, p);
   p.knobs.set("oracles", oracle_list({"c07"}));
+  { uint64_t proto = (i / 4) % 4; if (proto == 1 || proto == 3) return gen_c07_nt(r, p, i, true); if (proto == 2) return gen_c07_nt(r, p, i, false); }
   Json ctl = Json::obj(); Json env = Json::obj();
   int64_t databytes = r.chance(0.5) ? (int64_t)r.pick(std::vector<int64_t>{1, 10, 100, 1000}) : 0;
   if (databytes) { if (r.chance(0.5)) ctl.set("databytes", (long long)databytes); else env.set("DATABYTES", std::to_string(databytes)); }
@@ -163,9 +229,9 @@ static RegisterProperty reg_c08(PropertyDef{
     si_real(), si_stubs(), q_assume(), "hash of the server's output", 3000, 120000});
 
 static RegisterProperty reg_c07(PropertyDef{
-    "C07", "SI", "exploration", "deterministic simulation: SMTP sessions with bodies around databytes, 97-102 Received/Delivered-To fields and hostile HELO/TCPREMOTE* strings; client disconnect at a random byte, stalls around timeoutsmtpd, stand-in queue program sweeping exit status 0-255 with custom text, faults inside the real qmail-queue; ack-iff-queued oracle over the simulated queue", gen_c07,
+    "C07", "SI", "exploration", "deterministic simulation: SMTP sessions, QMTP package streams and QMQP packages (bodies around databytes, 97-102 Received/Delivered-To fields, addresses around 1000 bytes and with NUL, mutated netstring framing, hostile HELO/TCPREMOTE* strings) against the real qmail-smtpd, qmail-qmtpd and qmail-qmqpd; client disconnect at a random byte, stalls around the timeouts, stand-in queue program sweeping exit status 0-255 with custom text, faults inside the real qmail-queue; ack-iff-queued oracle over the simulated queue against reference models of the three protocols", gen_c07,
     "plan i = f(VERIF_SEED, i): four modes in rotation - complete session (30% with a fault inside the real qmail-queue), disconnect at byte k, stand-in queue program exiting with a random status (custom fd-6 text for 82), stall of timeout-5 / timeout+5 seconds at byte k. Checked: 250 after DATA iff exactly that message (Received field from safe characters only + reference-decoded body + acknowledged envelope) is in the queue; 552 for size, 554 for hops, permanent/temporary class per queue exit code. "
-    "QMTP and QMQP daemons are not yet driven by this check (SMTP only). non-trivial = at least one reply beyond the greeting",
+    "Blocks of four plans alternate SMTP, QMTP, QMQP, QMTP. QMTP/QMQP plans: 1-3 packages (LF and CRLF bodies of databytes-1/0/+1 decoded bytes, bare CRs, senders and recipients of 985/999/1000/1003 bytes or containing NUL, recipients outside rcpthosts, RELAYCLIENT), 30% with one deleted/replaced/inserted framing byte; checked: each reply netstring starts K/Z/D as the reference says, K iff exactly that package (Received ... with QMTP/QMQP, decoded body, sender, accepted recipients in order) was committed, nothing committed for refused, malformed, cut or timed-out packages, exit status 0 / 111 after the 3600 s alarm. non-trivial = at least one reply beyond the greeting (SMTP) or any client byte (QMTP/QMQP)",
     si_real(), si_stubs(), q_assume(), "hash of the server's output", 3000, 120000});
 
 }  // namespace sim
